@@ -453,6 +453,22 @@ impl<'a> Run<'a> {
 // generators
 // ---------------------------------------------------------------------------------------------
 
+/// a decimal exponent of seven or more digits: the exact model would build a power of ten with millions of
+/// digits (std saturates such exponents); such texts are not generated
+fn huge_exp(s: &str) -> bool {
+    let b = s.as_bytes();
+    for i in 0..b.len() {
+        if b[i] == b'e' || b[i] == b'E' {
+            let mut j = i + 1;
+            if j < b.len() && (b[j] == b'+' || b[j] == b'-') { j += 1; }
+            let start = j;
+            while j < b.len() && b[j].is_ascii_digit() { j += 1; }
+            if j - start >= 7 { return true; }
+        }
+    }
+    false
+}
+
 const WS: &[&str] = &[" ", "  ", "\t", " \t ", "\u{a0}", "\u{2003}", "\n"];
 const TIME_KEYS: &[&str] = &["time", "duration", "time required", "prep time", "prep_time", "cook time", "cook_time"];
 const HM: &[u64] = &[0, 1, 59, 60, 71582788, 71582789, 4294967295, 4294967296];
@@ -781,6 +797,7 @@ fn soup(run: &mut Run, rng: &mut Rng, n: usize) {
             }
             cs.into_iter().collect()
         };
+        if huge_exp(&s) { run.ctx.count("soup:skipped-huge-exponent"); continue; }
         let v = ystr(s.clone());
         let ci = i % nconv;
         run.syntax(&s);
@@ -849,7 +866,7 @@ hour-based ratios, one without a minute), plus a malformed stream of random and 
     let mut run = Run { ctx, convs: &convs };
     corpus(&mut run);
     let mut rng = Rng::new(seed ^ 0xC13);
-    let k = if thorough { 60 } else { 4 };
+    let k = if thorough { 200 } else { 4 };
     key_cases(&mut run);
     time_cases(&mut run, &mut rng.fork(1), 6000 * k);
     servings_cases(&mut run, &mut rng.fork(2), 1500 * k);
